@@ -357,18 +357,27 @@ def check_array_memo_key(model, rep):
     branch = [g for g in ast.walk(f.node) if isinstance(g, ast.If) and 'numpy.ndarray' in src(g.test)]
     if len(branch) != 1:
         raise AnalysisError('types.lru_cache: the ndarray branch was not found')
-    appends = [c for c in ast.walk(branch[0]) if isinstance(c, ast.Call) and src(c.func) == 'key.append' and c.lineno < (branch[0].orelse[0].lineno if branch[0].orelse else 10**9)]
+    # the statements executed for an ndarray argument, whichever way round the test is written
+    from sa.astutil import if_branches as _ifb
+    holder = next((blk for o_ in ast.walk(f.node) for blk in (getattr(o_, 'body', None), getattr(o_, 'orelse', None)) if isinstance(blk, list) and branch[0] in blk), None)
+    t_, e_ = _ifb(holder, branch[0]) if holder is not None else (branch[0].body, branch[0].orelse)
+    negated = isinstance(branch[0].test, ast.UnaryOp) and isinstance(branch[0].test.op, ast.Not)
+    arr_stmts = e_ if negated else t_
+    arr_root = ast.Module(body=list(arr_stmts), type_ignores=[])
+    appends = [c for c in ast.walk(arr_root) if isinstance(c, ast.Call) and src(c.func) == 'key.append']
     if len(appends) != 1:
         raise AnalysisError('types.lru_cache: the key component of ndarray arguments was not found')
+    from sa.astutil import deep_resolved as _dr
+    keyexpr = _dr(f.node, appends[0].args[0])
     text = src(appends[0].args[0])
-    mentions = {const(x) for x in ast.walk(appends[0].args[0]) if isinstance(x, ast.Constant) and isinstance(x.value, str)} | {x.attr for x in ast.walk(appends[0].args[0]) if isinstance(x, ast.Attribute)}
+    mentions = {const(x) for x in ast.walk(keyexpr) if isinstance(x, ast.Constant) and isinstance(x.value, str)} | {x.attr for x in ast.walk(keyexpr) if isinstance(x, ast.Attribute)}
     need = {'start address': ('data',), 'strides': ('strides',), 'shape': ('shape',), 'element type': ('typestr', 'dtype', 'descr')}
     missing = [what for what, names in need.items() if not any(nm in mentions for nm in names)]
     ok = not missing
     rep.ob('R03.8', f.key, f.where(appends[0]), ok, 'the memo key of an array argument covers start address, strides, shape and element type' if ok else
            f'the memo key `{text[:70]}` of an array argument leaves out the {" and the ".join(missing)}: two immutable views that differ only there (an array and its transpose) share one memo entry, and the later call returns '
            'the result computed for the earlier one', statement='array-key-complete')
-    bypass = any(isinstance(g, ast.If) and 'writeable' in src(g.test) and any(isinstance(b, ast.Return) for b in g.body) for g in ast.walk(branch[0]))
+    bypass = any(isinstance(g, ast.If) and 'writeable' in src(g.test) and any(isinstance(b, ast.Return) for b in g.body) for g in ast.walk(arr_root))
     rep.ob('R03.8', f.key, f.where(branch[0]), bypass, 'a writeable array (or base) bypasses the memo' if bypass else 'writeable arrays are memoised: their content can change under the same key', statement='writeable-bypass')
 
 
